@@ -19,7 +19,25 @@ import (
 // lie is one false filter hash of a peer and what it serves as the filter.
 type lie struct {
 	Height int    `json:"height"`
-	Kind   string `json:"kind"` // omit|extra|opret|otherkey (consistent) | inconsistent|silent|zero|omit-inconsistent
+	Kind   string `json:"kind"` // omit|omitx|omitcb|omitprev|extra|opret|otherkey (consistent) | inconsistent|silent|zero|omit-inconsistent
+	// Salt selects the script left out and marks the doctored filter; liars
+	// with the same salt serve the same filter (0: the peer's id).
+	Salt int `json:"salt,omitempty"`
+}
+
+func (l lie) salt(p *peerSpec) int {
+	if l.Salt != 0 {
+		return l.Salt
+	}
+	return int(p.ID)
+}
+
+func consistentLie(kind string) bool {
+	switch kind {
+	case fOmit, fOmitX, fOmitCb, fOmitPrev, fExtra, fOpret, fOtherKey:
+		return true
+	}
+	return false
 }
 
 // peerSpec is the behaviour of one peer.
@@ -65,16 +83,15 @@ func newWorld(ch *chainT, in *interner, peers []*peerSpec) *world {
 
 // the filter a peer serves at a height (nil = none) and how
 func (w *world) servedFilter(p *peerSpec, h int) (*gcs.Filter, string) {
-	b := w.ch.blocks[h]
 	if l, ok := p.lieAt[h]; ok {
-		switch l.Kind {
-		case fOmit, fExtra, fOpret, fOtherKey:
-			return doctored(l.Kind, b, w.ch.filters[h], int(p.ID)), "ok"
-		case "inconsistent", "zero":
+		switch {
+		case consistentLie(l.Kind):
+			return w.ch.doctored(l.Kind, h, l.salt(p)), "ok"
+		case l.Kind == "inconsistent" || l.Kind == "zero":
 			return w.ch.filters[h], "ok"
-		case "omit-inconsistent":
-			return doctored(fOmit, b, w.ch.filters[h], int(p.ID)), "ok"
-		case "silent":
+		case l.Kind == "omit-inconsistent":
+			return w.ch.doctored(fOmit, h, l.salt(p)), "ok"
+		case l.Kind == "silent":
 			return nil, "silent"
 		}
 	}
@@ -104,10 +121,10 @@ func (w *world) prepare(p *peerSpec) {
 			first = l.Height
 		}
 		var adv chainhash.Hash
-		switch l.Kind {
-		case fOmit, fExtra, fOpret, fOtherKey:
-			adv = filterHash(doctored(l.Kind, w.ch.blocks[l.Height], w.ch.filters[l.Height], int(p.ID)))
-		case "zero":
+		switch {
+		case consistentLie(l.Kind):
+			adv = filterHash(w.ch.doctored(l.Kind, l.Height, l.salt(p)))
+		case l.Kind == "zero":
 			adv = zeroHash
 		default:
 			r := rand.New(rand.NewSource(int64(l.Height)*131 + p.ID))
@@ -243,8 +260,8 @@ func (w *world) envRow(h int) {
 		}
 		filts = append(filts, fmt.Sprintf("(%d, %d)", p.ID, add(f)))
 	}
-	w.envRows[h] = fmt.Sprintf("(%d, %s, true, %s, %s)", h, c.List(filts),
-		c.Bool(!w.BlockFail[h]), c.List(orc))
+	w.envRows[h] = fmt.Sprintf("(%d, %s, true, %s, %s, %s)", h, c.List(filts),
+		c.Bool(!w.BlockFail[h]), absOf(b).term, c.List(orc))
 	w.envOrder = append(w.envOrder, h)
 }
 
